@@ -6,7 +6,7 @@ import socket
 import time  # noqa: F401
 import gc  # noqa: F401
 
-from threading import Lock, Condition
+from threading import Lock, RLock, Condition
 from rpyc.lib import spawn, Timeout, get_methods, get_id_pack
 from rpyc.lib.compat import pickle, next, maxint, select_error, acquire_lock  # noqa: F401
 from rpyc.lib.colls import WeakValueDict, RefCountingColl
@@ -147,6 +147,8 @@ class Connection(object):
         self._seqcounter = itertools.count()
         self._recvlock = Lock()
         self._sendlock = Lock()
+        self._cleanup_lock = RLock()
+        self._cleaned_up = False
         self._recv_event = Condition()
         self._request_callbacks = {}
         self._local_objects = RefCountingColl()
@@ -175,18 +177,24 @@ class Connection(object):
         if self._closed and not _anyway:
             return
         self._closed = True
-        self._channel.close()
-        self._local_root.on_disconnect(self)
-        self._request_callbacks.clear()
-        self._local_objects.clear()
-        self._proxy_cache.clear()
-        self._netref_classes_cache.clear()
-        self._last_traceback = None
-        self._remote_root = None
-        self._local_root = None
-        # self._seqcounter = None
-        # self._config.clear()
-        del self._HANDLERS
+        # close() by a user thread, a close request of the peer and end-of-stream met by a serving thread may all arrive
+        # here at once: the clean-up (and the disconnect hook in it) happens once, the others wait until it is done
+        with self._cleanup_lock:
+            if self._cleaned_up:
+                return
+            self._cleaned_up = True
+            self._channel.close()
+            self._local_root.on_disconnect(self)
+            self._request_callbacks.clear()
+            self._local_objects.clear()
+            self._proxy_cache.clear()
+            self._netref_classes_cache.clear()
+            self._last_traceback = None
+            self._remote_root = None
+            self._local_root = None
+            # self._seqcounter = None
+            # self._config.clear()
+            del self._HANDLERS
 
     def close(self):  # IO
         """closes the connection, releasing all held resources"""
